@@ -36,6 +36,9 @@ if REPO not in sys.path:
 GUARD = 'PYKOOP_VERIF'
 os.environ[GUARD] = '1'
 
+REALS_AXIOMS = ('ClassicalDedekindReals.sig_forall_dec', 'ClassicalDedekindReals.sig_not_dec',
+                'FunctionalExtensionality.functional_extensionality_dep')
+
 COQ_TIMEOUT = int(os.environ.get('VERIF_COQ_TIMEOUT', '900'))
 
 # A broken implementation can blow up memory (e.g. rows duplicated at every stage); make
